@@ -320,7 +320,8 @@ fn wrap_token(w: Wrap, t: &str) -> String {
     }
 }
 
-fn one_case(d: &mut crate::driver::Driver, r: &mut Report, i: u64, seed: u64) {
+fn one_case(d: &mut crate::driver::Driver, r: &mut Report, prop: &str, i: u64, seed: u64) {
+    let c13 = prop.is_empty() || prop == "C13";
     let mut g = SplitMix::derive(seed ^ 0x5E1, i);
     let score = g.chance(1, 2);
     let cases = 2usize;
@@ -367,7 +368,7 @@ fn one_case(d: &mut crate::driver::Driver, r: &mut Report, i: u64, seed: u64) {
     if real.contains("NOT-A-MEMBER") { viol(r, "returned reference is not an element of the population"); return; }
     if real.contains("Unknown(") || real.contains("DynWeightError") || real.contains("DynEmptyPopulation") { viol(r, "an undocumented error was reported"); }
     let overflow = build_overflows(&node);
-    if overflow != real.starts_with("builderr") { viol(r, "WeightedPair::new must fail exactly when a pair total exceeds u32::MAX"); }
+    if c13 && overflow != real.starts_with("builderr") { viol(r, "WeightedPair::new must fail exactly when a pair total exceeds u32::MAX"); }
     if real.starts_with("builderr") { return; }
     let zero_root = real == "err ZeroWeight" || real == "err DynZeroWeight" || real == "err Boxed(ZeroWeight)" || real == "err Boxed(DynZeroWeight)";
     let dyn_overflow = real.contains("DynOverflow");
@@ -382,7 +383,7 @@ fn one_case(d: &mut crate::driver::Driver, r: &mut Report, i: u64, seed: u64) {
     if real.contains("DynZeroWeight") && !legit_dynzero(&node) {
         viol(r, "DynWeighted's zero-weight error reported although no reachable DynWeighted has all weights zero");
     }
-    if !is_static10 {
+    if !is_static10 && c13 {
         let is_zero_err = real.ends_with("ZeroWeight") || real.contains("ZeroWeight)") || dyn_overflow;
         if is_zero_err {
             // the zero-weight error may come from an inner combination after outer delegation; but no *leaf* may have run
@@ -444,7 +445,8 @@ fn law_block(r: &mut Report, seed: u64, runs: u64) {
 pub fn run(cfg: &Cfg) -> Report {
     let n: u64 = if cfg.thorough { 4000000 } else { 80000 };
     let seed = cfg.seed;
-    let mut rep = run_sharded(&cfg.driver, cfg.threads, n, || Report::new("wsel", RULE), |d, r, i| one_case(d, r, i, seed));
-    law_block(&mut rep, seed, if cfg.thorough { 1000000 } else { 50000 });
+    let prop = cfg.prop.as_str();
+    let mut rep = run_sharded(&cfg.driver, cfg.threads, n, || Report::new("wsel", RULE), |d, r, i| one_case(d, r, prop, i, seed));
+    if prop.is_empty() || prop == "C13" { law_block(&mut rep, seed, if cfg.thorough { 1000000 } else { 50000 }); }
     rep
 }
